@@ -50,6 +50,7 @@ def s_case(gran):
     anyd = st.tuples(st.sampled_from(["retry", "next_host", "rethrow", "ignore", "ignore"]), st.sampled_from(CLS)).map(list)
     decisions = st.tuples(st.lists(go_on, max_size=4), st.lists(anyd, max_size=2)).map(lambda t: t[0] + t[1])
     return st.fixed_dictionaries({
+        "warm": st.sampled_from([0, 1, 2, 3]),
         "hosts": st.sampled_from([1, 2, 3, 3]),
         "stmt": st.sampled_from(["simple", "simple", "bound", "batch"]),
         "cl": st.sampled_from([None, "ONE", "QUORUM", "ALL"]),
@@ -160,7 +161,13 @@ def _run(case, ctx, sim):
                             request_timeout=None,
                             speculative_execution_policy=ConstantSpeculativeExecutionPolicy(case["spec_delay"], case["spec"])
                             if case["spec"] else None)
-    cluster, session, nodes = F.build(sim, n, prof)
+    warm = case.get("warm")
+    # 4 stream ids per connection + 0-3 warm-up requests: attempts travel on every stream id, 0 included
+    cluster, session, nodes = F.build(sim, n, prof, max_in_flight=4 if warm is not None else None)
+    with ctx.driver(["C16.warmup"]):
+        F.warm_up(sim, session, cluster, nodes, warm or 0)
+    if ctx._failures:
+        return
     index = dict((nd.address, i) for i, nd in enumerate(nodes))
     timeline = []      # ("frame", host index, cl code, consultations so far)
 
